@@ -1,6 +1,7 @@
 package pure
 
 import (
+	"errors"
 	"fmt"
 	"testing"
 	"time"
@@ -12,16 +13,18 @@ import (
 
 // per-position header kinds, relative to the previous input element
 var c02Kinds = []string{
-	"next",      // +1, linked, valid
-	"skip",      // +2, not linked (legal only as first element: non-adjacent to trusted)
-	"dup",       // same height as previous
-	"lower",     // previous height - 1
+	"next",       // +1, linked, valid
+	"skip",       // +2, not linked (legal only as first element: non-adjacent to trusted)
+	"dup",        // same height as previous
+	"lower",      // previous height - 1
 	"wrongchain", // +1, linked, other chain id
-	"zero",      // nil header
-	"badlink",   // +1, wrong LastHeader (type-level failure; hard when adjacent)
-	"badsig",    // +1/+2 linked but signed by someone else (type-level failure)
-	"oldtime",   // +1 linked, time before predecessor
-	"future",    // +1 linked, time beyond now+drift
+	"zero",       // nil header
+	"badlink",    // +1, wrong LastHeader (type-level failure; hard when adjacent)
+	"badsig",     // +1/+2 linked but signed by someone else (type-level failure)
+	"oldtime",    // +1 linked, time before predecessor
+	"future",     // +1 linked, time beyond now+drift
+	"typesoft",   // +1 linked and well-formed, but the header type's own Verify rejects it with a *VerifyError marked SoftFailure
+	"typeplain",  // +1 linked and well-formed, but the header type's own Verify rejects it with a plain error
 }
 
 type c02Case struct {
@@ -70,6 +73,14 @@ func buildC02(c c02Case, now time.Time) (tr *vk.H, in []*vk.H) {
 		case "future":
 			h = mk(1)
 			h.TNano = now.Add(time.Hour).UnixNano()
+		case "typesoft":
+			h = mk(1)
+			prev.VerifyHook = func(_, _ *vk.H) error {
+				return &header.VerifyError{Reason: errors.New("vk: type-level soft rejection"), SoftFailure: true}
+			}
+		case "typeplain":
+			h = mk(1)
+			prev.VerifyHook = func(_, _ *vk.H) error { return errors.New("vk: type-level rejection") }
 		}
 		if h != nil {
 			h.Hash()
@@ -194,7 +205,7 @@ func TestC02(t *testing.T) {
 	defer run.Finish()
 	maxLen := vk.Pick(run, 4, 6)
 	run.Set("max_sequence_length", maxLen)
-	run.SetRule("every sequence of length 0..L over 10 per-position header kinds (valid next, skip, duplicate, lower, wrong chain, zero, bad link, bad signature, old time, future) x {non-zero, zero} trusted; distinct by (first failing kind, failure position, length)")
+	run.SetRule("every sequence of length 0..L over 12 per-position header kinds (valid next, skip, duplicate, lower, wrong chain, zero, bad link, bad signature, old time, future, rejected by the type's own Verify with a soft *VerifyError, rejected with a plain error) x {non-zero, zero} trusted; distinct by (first failing kind, failure position, length)")
 	run.Assume("reference = fold of the C01 reference with a rolling trusted header + adjacency for i>0")
 
 	var rc c02Case
